@@ -13,7 +13,7 @@
  *         A:<i>:<c|o|b>:<kind>         an answer for item i carrying its current / an older / a never used transaction id;
  *                                      kind = ok | inv | garb | e<code>.<realm 0|1|2> | alt<server>
  * out  : <id> <snap>;<snap>;...     one snapshot per op:
- *   items(p.d.b.retrans.auth.next.server, '/' separated, '-' = empty list)|unsched|timer|gathering|sends|cands|done-signals */
+ *   items(p.d.b.retrans.auth.next.server.redirects, '/' separated, '-' = empty list)|unsched|timer|gathering|sends|cands|done-signals */
 #include "hcommon.h"
 #include <time.h>
 static long long cur_s, cur_us;
@@ -44,6 +44,12 @@ static NiceAddress srv_addr (int k) { NiceAddress a; char ip[32]; sprintf (ip, "
 static int srv_index (const NiceAddress *a) { char s[64]; int k = 0; nice_address_to_string (a, s); sscanf (s, "10.9.0.%d", &k); return k; }
 static void on_done (NiceAgent *a, guint sid, gpointer u) { ndone_sig++; }
 
+/* the counter of followed ALTERNATE-SERVER answers exists since /repo 1878027; a tree without it still builds (regression run) */
+#ifdef NICE_DISCOVERY_MAX_REDIRECTS
+#define DISC_REDIRECTS(d) ((d)->redirects)
+#else
+#define DISC_REDIRECTS(d) 0u
+#endif
 #define MAXI 16
 static uint8_t cur_req[MAXI][STUN_MAX_MESSAGE_SIZE_IPV6], old_req[MAXI][STUN_MAX_MESSAGE_SIZE_IPV6]; static size_t cur_len[MAXI], old_len[MAXI];
 /* remember the request each item currently has in its buffer (and the one before) */
@@ -147,7 +153,7 @@ int main (void)
       fprintf (hc_out, "%s", first ? "" : ";"); first = 0;
       if (!ag->discovery_list) fprintf (hc_out, "-");
       int k = 0; for (GSList *i = ag->discovery_list; i; i = i->next, k++) { CandidateDiscovery *d = i->data;
-        fprintf (hc_out, "%s%d.%d.%d.%u.%u.%lld.%d", k ? "/" : "", d->pending ? 1 : 0, d->done ? 1 : 0, d->stun_message.buffer ? 1 : 0, d->timer.retransmissions, d->auth_retries, (long long) d->next_tick, srv_index (&d->server)); }
+        fprintf (hc_out, "%s%d.%d.%d.%u.%u.%lld.%d.%u", k ? "/" : "", d->pending ? 1 : 0, d->done ? 1 : 0, d->stun_message.buffer ? 1 : 0, d->timer.retransmissions, d->auth_retries, (long long) d->next_tick, srv_index (&d->server), DISC_REDIRECTS (d)); }
       int ncand = 0; for (int g = 1; g <= 2; g++) for (GSList *c = cm[g]->local_candidates; c; c = c->next) ncand++;
       fprintf (hc_out, "|%u|%d|%d|%d|%d|%d", ag->discovery_unsched_items, ag->discovery_timer_source ? 1 : 0, (st[1]->gathering || st[2]->gathering) ? 1 : 0, nsends, ncand, ndone_sig);
       agent_unlock (ag);
